@@ -564,7 +564,19 @@ operations are unrestricted: unknown names, refused values, method names, anythi
 are of the covered kinds (`FitOp`): reading any plain property `q` of `magpylib.defaults` or of any object's own style
 gives exactly what the abstract map computed from the operations and their outcomes alone gives (`effStep`): the value the
 property's setter stored for the last accepted write that covers `q` since the last `defaults.reset()`, else the value at
-import time / after construction. -/
+import time / after construction.
+(audit2) Read literally: (1) the "outcomes" in `annot` are the outcomes of THE MODEL's own `step` — which operations
+count as accepted is the model's decision (tied to the code by the `sstate` stream, outcome compared after every
+operation); for histories of leaf assignments / resets the outcome bits are eliminated in
+`leaf_histories_last_valid_assignment_wins` below (acceptance = the validator row accepts, `leaf_assign_outcome`).
+(2) `effStep` is a fold over the operations that never looks at a tree or at the class structure (only at the validator
+row `vid`, at `magic_to_dict` of an update's argument, and at the regenerated DEFAULTS for the two resets) — it is not
+the model's `step`; both notations of an update go through the SAME `magicToDict` (`updArg`) as in the model, so the
+equivalence of the notations is not what this theorem adds (that is `C20.notations_equivalent`).
+(3) "rejected operations are unrestricted" includes the model outcome `shadow` (assignment to a private slot), which the
+CODE accepts and which changes what is read afterwards: for histories containing such an operation the theorem is about
+the model only.  `FitOp` is a hypothesis on ACCEPTED operations only, see its docstring for what is excluded.
+A proof term that instantiates every hypothesis on a non-trivial history is given below (`hfit_of_all`). -/
 theorem reads_refine (cls : List Nat) (hcls : ∀ ci ∈ cls, ci < classes.length) (ops : List Op)
     (hfit : ∀ x ∈ annot (init cls) ops, x.2 = true → FitOp (init cls) x.1)
     (j : Nat) (c : ClassInfo) (hc0 : clsOf (init cls) j = some c) (q : List Key) (vid : Nat)
@@ -598,6 +610,260 @@ example :
     (match (annot (init [1, 2]) ops).foldl (effStep 1 q ((leafVid ps q).getD 0)) .keep with | .set (some 0) => true | _ => false) = true ∧
     (match readAt (exec tables classes defaults (init [1, 2]) ops) 1 q with | .ok (.leaf (some 0)) => true | _ => false) = true := by
   decide +kernel
+
+/-! ### audit2: `reads_refine` applied; acceptance of leaf assignments without the model's outcomes -/
+
+/-- `FitOp` as a computation -/
+def fitOpB (w0 : World) : Op → Bool
+  | .setattr i p k _ => match clsOf w0 i with | some c => (leafVid c.schema.props (p ++ [k])).isSome | none => false
+  | .update i p arg kwargs _ rno =>
+    !rno && (match clsOf w0 i with | some c => fitsAt c.schema.props p (updArg arg kwargs) | none => false)
+  | .setStyle i val =>
+    match clsOf w0 i with | some c => fitsAt c.schema.props [] (updArg (some (.node (styleKw val))) []) | none => false
+  | _ => true
+
+theorem fitOp_of_fitOpB (w0 : World) (op : Op) (h : fitOpB w0 op = true) : FitOp w0 op := by
+  cases op with
+  | setattr i p k val =>
+    simp only [fitOpB] at h
+    cases hc : clsOf w0 i with
+    | none => rw [hc] at h; cases h
+    | some c => rw [hc] at h; exact ⟨c, hc, h⟩
+  | update i p arg kwargs mt rno =>
+    simp only [fitOpB] at h
+    simp only [Bool.and_eq_true, Bool.not_eq_true'] at h
+    cases hc : clsOf w0 i with
+    | none => rw [hc] at h; cases h.2
+    | some c => rw [hc] at h; exact ⟨h.1, c, hc, h.2⟩
+  | setStyle i val =>
+    simp only [fitOpB] at h
+    cases hc : clsOf w0 i with
+    | none => rw [hc] at h; cases h
+    | some c => rw [hc] at h; exact ⟨c, hc, h⟩
+  | reset => trivial
+  | resetStyle => trivial
+  | setStyleObj i j => trivial
+  | read i p => trivial
+
+/-- the hypothesis `hfit` of `reads_refine` as ONE computation over the annotated history -/
+theorem hfit_of_all (w0 : World) (ops : List Op) (h : (annot w0 ops).all (fun x => !x.2 || fitOpB w0 x.1) = true) :
+    ∀ x ∈ annot w0 ops, x.2 = true → FitOp w0 x.1 := by
+  intro x hx hacc
+  have := List.all_eq_true.mp h x hx
+  rw [hacc] at this
+  exact fitOp_of_fitOpB w0 x.1 (by simpa using this)
+
+def exQ : List Key := [.str "path".toList, .str "line".toList, .str "width".toList]
+def exOps : List Op := [
+  .update 1 [] none [(.str "path_line_width".toList, .leaf (some 15)), (.str "opacity".toList, .leaf (some 21))] true false,
+  .update 1 [.str "path".toList] (some (.node [(.str "line".toList, .node [(.str "width".toList, .leaf (some 10))])])) [] true false,
+  .update 1 [] none [(.str "path_line_width".toList, .leaf (some 8)), (.str "colour".toList, .leaf (some 22))] true false,
+  .setStyle 1 (.node [(.str "path".toList, .node [(.str "line".toList, .node [(.str "width".toList, .leaf (some 0))])])]),
+  .setattr 2 [] (.str "opacity".toList) (.leaf (some 21)),
+  .resetStyle, .reset]
+
+/-- **`reads_refine` APPLIED** (all hypotheses instantiated, none assumed) -/
+example : (match readAt (exec tables classes defaults (init [1, 2]) exOps) 1 exQ with | .ok (.leaf (some 0)) => true | _ => false) = true := by
+  have h := reads_refine [1, 2] (by decide) exOps (hfit_of_all _ _ (by decide +kernel)) 1
+    ⟨"MagnetStyle".toList, _, cMagnetStyle⟩ rfl exQ ((leafVid cMagnetStyle.props exQ).getD 0) (by decide +kernel)
+  rw [h]
+  decide +kernel
+
+
+/-- on a well-formed object every schema path to a plain property can be followed -/
+theorem subObj_of_wf_leaf (P : Nat → Option Val → Bool) (k : Key) : ∀ (p : List Key) (ps : List (Key × Schema)) (os : List Str) (c : Dict) (vid : Nat),
+    wfKids P ps c = true → leafVid ps (p ++ [k]) = some vid →
+    ∃ ps' os' c', subObj ps os c p = some (ps', os', c') ∧ lookup k ps' = some (.leaf vid) := by
+  intro p
+  induction p with
+  | nil =>
+    intro ps os c vid _ h
+    have hk : lookup k ps = some (.leaf vid) := by
+      simp only [List.nil_append, leafVid] at h
+      split at h
+      · rename_i vid' hl; injection h with h; rw [hl, h]
+      · cases h
+    exact ⟨ps, os, c, rfl, hk⟩
+  | cons k1 p' ih =>
+    intro ps os c vid hw h
+    rw [List.cons_append, leafVid_cons_append] at h
+    split at h
+    · rename_i ps1 os1 sh ct vk hp
+      obtain ⟨v, hv1, hv2⟩ := wfKids_lookup P k1 (.obj ps1 os1 sh ct vk) rfl ps c hw hp
+      obtain ⟨sub, rfl, hsub⟩ := wfVal_obj_elim hv2
+      obtain ⟨ps', os', c', h1, h2⟩ := ih ps1 os1 sub vid hsub h
+      refine ⟨ps', os', c', ?_, h2⟩
+      unfold subObj
+      rw [hp, hv1]
+      exact h1
+    · cases h
+
+def isOkL : LeafOut → Bool
+  | .ok _ => true
+  | .error _ => false
+
+/-- **acceptance of a leaf assignment is decided by the validator table alone** (no model run needed): on a well-formed
+world, `X.k = val` for a plain property `X.k` (any depth) of object `i` is accepted iff the property's validator row
+accepts `val` -/
+theorem leaf_assign_outcome (w : World) (hwf : WFW w) (i : Nat) (p : List Key) (k : Key) (val : Tree) (o : Obj) (c : ClassInfo) (vid : Nat)
+    (hw : w[i]? = some o) (hc : classes[o.cls]? = some c) (hq : leafVid c.schema.props (p ++ [k]) = some vid) :
+    outOk (step tables classes defaults w (.setattr i p k val)).2 = isOkL (runV tables vid val) := by
+  obtain ⟨c', hc', hwf'⟩ := hwf i o hw
+  rw [hc] at hc'
+  injection hc' with hc'
+  subst hc'
+  obtain ⟨ps', os', sub, hs, hk⟩ := subObj_of_wf_leaf (fixB tables) k p c.schema.props c.schema.others o.tree vid hwf' hq
+  have hstep : step tables classes defaults w (.setattr i p k val) = _ :=
+    onObj_at (fun ps os cur => atPath (assignOp tables k val) ps os cur p) w i o c hw hc
+  rw [hstep]
+  simp only []
+  cases hv : runV tables vid val with
+  | ok v' =>
+    rw [(leaf_write_read_back_partial tables k val vid v' hv p _ _ o.tree ps' os' sub hs hk).1]
+    rfl
+  | error e =>
+    rw [atPath_of_subObj_error (assignOp tables k val) e p _ _ _ ps' os' sub hs
+      (by simp only [assignOp, setAttr_leaf tables ps' os' sub k val vid hk, hv])]
+    rfl
+
+/-- histories of leaf assignments (any depth, any object, any value), `defaults.reset()`, `obj.style = other.style`, reads -/
+def LeafOp (w0 : World) : Op → Prop
+  | .setattr i p k _ => ∃ c, clsOf w0 i = some c ∧ (leafVid c.schema.props (p ++ [k])).isSome = true
+  | .reset => True
+  | .read _ _ => True
+  | .setStyleObj _ _ => True
+  | _ => False
+
+theorem fitOp_of_leafOp (w0 : World) (op : Op) (h : LeafOp w0 op) : FitOp w0 op := by
+  cases op with
+  | setattr i p k val => exact h
+  | reset => trivial
+  | read i p => trivial
+  | setStyleObj i j => trivial
+  | update i p arg kwargs mt rno => exact absurd h id
+  | resetStyle => exact absurd h id
+  | setStyle i val => exact absurd h id
+
+/-- for a leaf operation the model's outcome bit is redundant in the specification -/
+theorem effStep_outcome_irrelevant (w0 w : World) (hg : Good w0 w) (op : Op) (hl : LeafOp w0 op)
+    (j : Nat) (c : ClassInfo) (hc0 : clsOf w0 j = some c) (q : List Key) (vid : Nat) (hq : leafVid c.schema.props q = some vid) (e : Eff) :
+    effStep j q vid e (op, outOk (step tables classes defaults w op).2) = effStep j q vid e (op, true) := by
+  cases hacc : outOk (step tables classes defaults w op).2 with
+  | true => rfl
+  | false =>
+    cases op with
+    | setattr i p k val =>
+      by_cases hij : i = j ∧ p ++ [k] = q
+      · obtain ⟨hi, hpq⟩ := hij
+        subst hi
+        obtain ⟨c2, hc2, hl2⟩ := hl
+        rw [hc0] at hc2
+        injection hc2 with hc2
+        subst hc2
+        obtain ⟨o, hw, hc⟩ := clsOf_elim (show clsOf w i = some c by rw [hg.cls]; exact hc0)
+        rw [hpq] at hl2
+        have hout := leaf_assign_outcome w hg.wf i p k val o c vid hw hc (by rw [hpq]; exact hq)
+        rw [hacc] at hout
+        cases hv : runV tables vid val with
+        | ok v' => rw [hv] at hout; cases hout
+        | error er => simp [effStep, setV, hpq, hv]
+      · simp [effStep, hij]
+    | reset =>
+      exfalso
+      obtain ⟨x, hx⟩ := hg.inv0
+      rw [step_reset_inv0 w x hx] at hacc
+      have := resetResult_ok
+      cases hr : resetResult.2 with
+      | ok u => rw [hr] at hacc; cases hacc
+      | error er => rw [hr] at this; cases this
+    | read i p => simp [effStep]
+    | setStyleObj i k => simp [effStep]
+    | update i p arg kwargs mt rno => exact absurd hl id
+    | resetStyle => exact absurd hl id
+    | setStyle i val => exact absurd hl id
+
+theorem annot_fold_leaf (w0 : World) (j : Nat) (c : ClassInfo) (hc0 : clsOf w0 j = some c) (q : List Key) (vid : Nat)
+    (hq : leafVid c.schema.props q = some vid) : ∀ (ops : List Op) (w : World) (e : Eff), Good w0 w → (∀ op ∈ ops, LeafOp w0 op) →
+    (annot w ops).foldl (effStep j q vid) e = (ops.map (fun op => (op, true))).foldl (effStep j q vid) e := by
+  intro ops
+  induction ops with
+  | nil => intro w e _ _; rfl
+  | cons op t ih =>
+    intro w e hg hl
+    rw [annot, List.map_cons, List.foldl_cons, List.foldl_cons,
+      effStep_outcome_irrelevant w0 w hg op (hl op (List.mem_cons_self ..)) j c hc0 q vid hq e]
+    exact ih _ _ (good_step w0 w hg op) (fun o ho => hl o (List.mem_cons_of_mem _ ho))
+
+theorem annot_mem_op : ∀ (ops : List Op) (w : World) (x : Op × Bool), x ∈ annot w ops → x.1 ∈ ops := by
+  intro ops
+  induction ops with
+  | nil => intro w x hx; cases hx
+  | cons op t ih =>
+    intro w x hx
+    rw [annot] at hx
+    rcases List.mem_cons.mp hx with h | h
+    · rw [h]; exact List.mem_cons_self ..
+    · exact List.mem_cons_of_mem _ (ih _ x h)
+
+/-- **C20 "the last assignment wins; invalid values are rejected", with NO reference to the model's own outcomes** (the
+leaf-assignment fragment).  For every history of attribute assignments to plain properties (any depth, any value — valid
+or not — on the defaults and on any number of objects), `defaults.reset()`, `obj.style = other.style` and reads: what is
+read at the plain property `q` of object `j` is the fold of `effStep` over the operations with every outcome bit set —
+i.e. a function of the operation list and the validator table only: the validator's image of the last assigned value
+that the validator of `q` accepts since the last `defaults.reset()`, else the initial value. -/
+theorem leaf_histories_last_valid_assignment_wins (cls : List Nat) (hcls : ∀ ci ∈ cls, ci < classes.length) (ops : List Op)
+    (hl : ∀ op ∈ ops, LeafOp (init cls) op)
+    (j : Nat) (c : ClassInfo) (hc0 : clsOf (init cls) j = some c) (q : List Key) (vid : Nat)
+    (hq : leafVid c.schema.props q = some vid) :
+    readAt (exec tables classes defaults (init cls) ops) j q =
+      ((ops.map (fun op => (op, true))).foldl (effStep j q vid) .keep).val q (readAt (init cls) j q) := by
+  rw [reads_refine cls hcls ops (fun x hx _ => fitOp_of_leafOp _ _ (hl x.1 (annot_mem_op ops (init cls) x hx))) j c hc0 q vid hq,
+    annot_fold_leaf (init cls) j c hc0 q vid hq ops (init cls) .keep (good_init cls hcls) hl]
+
+
+def leafOpB (w0 : World) : Op → Bool
+  | .setattr i p k _ => match clsOf w0 i with | some c => (leafVid c.schema.props (p ++ [k])).isSome | none => false
+  | .reset => true
+  | .read _ _ => true
+  | .setStyleObj _ _ => true
+  | _ => false
+
+theorem leafOp_of_leafOpB (w0 : World) (op : Op) (h : leafOpB w0 op = true) : LeafOp w0 op := by
+  cases op with
+  | setattr i p k val =>
+    simp only [leafOpB] at h
+    cases hc : clsOf w0 i with
+    | none => rw [hc] at h; cases h
+    | some c => rw [hc] at h; exact ⟨c, hc, h⟩
+  | reset => trivial
+  | read i p => trivial
+  | setStyleObj i j => trivial
+  | update i p arg kwargs mt rno => cases h
+  | resetStyle => cases h
+  | setStyle i val => cases h
+
+def exLeafOps : List Op := [
+  .setattr 1 [] (.str "opacity".toList) (.leaf (some 21)),
+  .setattr 0 [dk] (.str "autosizefactor".toList) (.leaf (some 4)),
+  .setattr 1 [] (.str "opacity".toList) (.leaf (some 41)),
+  .setattr 1 [.str "path".toList, .str "line".toList] (.str "width".toList) (.leaf (some 15)),
+  .reset, .read 1 [.str "opacity".toList]]
+
+/-- `leaf_histories_last_valid_assignment_wins` APPLIED: a Cuboid-class style; `style.opacity = 0.5` (accepted),
+an assignment on the defaults, `style.opacity = "tail"` (refused by the validator), an assignment to another leaf,
+`defaults.reset()`, a read: the specification — evaluated WITHOUT running the model — says `set 0.5`, and that is read -/
+example :
+    ((exLeafOps.map (fun op => (op, true))).foldl (effStep 1 [.str "opacity".toList]
+        ((leafVid cMagnetStyle.props [.str "opacity".toList]).getD 0)) .keep matches .set (some 21)) = true ∧
+    (match readAt (exec tables classes defaults (init [1]) exLeafOps) 1 [.str "opacity".toList] with
+      | .ok (.leaf (some 21)) => true | _ => false) = true := by
+  have h := leaf_histories_last_valid_assignment_wins [1] (by decide) exLeafOps
+    (fun op hop => leafOp_of_leafOpB _ op (List.all_eq_true.mp (show exLeafOps.all (leafOpB (init [1])) = true by decide +kernel) op hop))
+    1 ⟨"MagnetStyle".toList, _, cMagnetStyle⟩ rfl [.str "opacity".toList]
+    ((leafVid cMagnetStyle.props [.str "opacity".toList]).getD 0) (by decide +kernel)
+  rw [h]
+  decide +kernel
+
 
 /-! ### the resolution order over the abstract map -/
 
@@ -690,5 +956,32 @@ example : True := by
     (by decide +kernel) [] [] (fun _ => none) [] (fun e he => by cases he) List.Pairwise.nil (fun e he => by cases he)
     List.Pairwise.nil (fun _ => rfl) (fun e he => by cases he) (fun e he => by cases he)
   trivial
+
+/-! ### audit2: a non-trivial instance of `effective_style_refines_partial` -/
+
+def exOpac : List Str := ["opacity".toList]
+def exDf : Entries := [(exOpac, some 8)]
+def exOps2 : List Op := [.setattr 1 [] (.str "opacity".toList) (.leaf (some 21)), .reset]
+
+/-- `effective_style_refines_partial` APPLIED to a non-empty history and a non-empty default dictionary: a Cuboid-class
+style with `style.opacity = 0.5` assigned (then `defaults.reset()`), no `show()` keyword, flat defaults `{opacity: 1}`:
+all hypotheses are instantiated; the theorem yields the resolved style with `opacity` = first non-None of
+[abstract map's value, base default] -/
+example : ∃ (o : Obj) (x : Option Val) (s2 : Tree),
+    (exec tables classes defaults (init [1]) exOps2)[1]? = some o ∧
+    resolveNested '_' (.node o.tree) (kwOf '_' []) (kwOf '_' exDf) = .ok s2 ∧
+    getPath s2 (exOpac.map Key.str) = some (.leaf (Style.firstSome (x :: [] ++ [C20.toFlat (flatOf '_' exDf) (String.ofList (joinWith '_' exOpac))]))) := by
+  obtain ⟨o, x, s2, h1, _, h3, h4⟩ := effective_style_refines_partial [1] (by decide) exOps2 (hfit_of_all _ _ (by decide +kernel)) 1
+    ⟨"MagnetStyle".toList, _, cMagnetStyle⟩ rfl exOpac ((leafVid cMagnetStyle.props (exOpac.map Key.str)).getD 0)
+    (by decide +kernel) [] exDf (C20.toFlat (flatOf '_' exDf)) [] (fun e he => by cases he) List.Pairwise.nil
+    (fun e he => by
+      have : e = (exOpac, some 8) := by simpa [exDf] using he
+      subst this
+      exact ⟨by decide, by decide⟩)
+    (List.pairwise_singleton _ _) (fun _ => rfl) (fun e he => by cases he)
+    (fun e he _ => by
+      have : e = (exOpac, some 8) := by simpa [exDf] using he
+      rw [this])
+  exact ⟨o, x, s2, h1, h3, h4⟩
 
 end MagpyVerif.C20d
